@@ -586,6 +586,10 @@ func driveRecover(args []string) error {
 		cont["hashes"] = hashes
 		cont["errors"] = errs
 		cont["final"] = n.observe(ref.Hash)
+		// a clean stop and restart of the continued node must present the same state again
+		n.db.Close()
+		n.db, n.am = store.NewChainDataBase(*dir), nil
+		cont["reopened"] = n.observe(ref.Hash)
 	}()
 	lg.put(cont)
 	return nil
